@@ -28,6 +28,8 @@ type Model struct {
 	Live     map[string]*MIntent
 	Ever     map[string]world.Path
 	Orphaned map[string]bool
+	// OrphanVals: leaves an orphan delete left on the device (the orphaned intent ruled them and no live intent defines them)
+	OrphanVals map[string]*MLeaf
 	Touched  map[string]world.Path // list entries some intent ever touched
 	R0       map[string]*world.Leaf
 	// PrevWinners: choice winners before the transaction being judged (set by Hist.Step; diagnostics for C08 items)
@@ -35,7 +37,7 @@ type Model struct {
 }
 
 func NewModel(si *world.SchemaInfo) *Model {
-	return &Model{SI: si, Live: map[string]*MIntent{}, Ever: map[string]world.Path{}, Orphaned: map[string]bool{},
+	return &Model{SI: si, Live: map[string]*MIntent{}, Ever: map[string]world.Path{}, Orphaned: map[string]bool{}, OrphanVals: map[string]*MLeaf{},
 		Touched: map[string]world.Path{}, R0: map[string]*world.Leaf{}}
 }
 
@@ -49,6 +51,9 @@ func (m *Model) Clone() *Model {
 	}
 	for k, v := range m.Orphaned {
 		c.Orphaned[k] = v
+	}
+	for k, v := range m.OrphanVals {
+		c.OrphanVals[k] = v
 	}
 	for k, v := range m.Touched {
 		c.Touched[k] = v
@@ -96,14 +101,26 @@ func (m *Model) Definers(p string) []*MIntent {
 
 // Accept applies an accepted, non-dry-run transaction to the model.
 func (m *Model) Accept(tx *TxSpec) {
+	left := map[string]*MLeaf{}
+	defer func() {
+		// what an orphan delete leaves behind: the values the orphaned intent ruled, where no live intent defines the path now
+		for p, l := range left {
+			if len(m.Definers(p)) == 0 {
+				m.OrphanVals[p] = l
+			}
+		}
+	}()
 	for _, is := range tx.Intents {
 		old := m.Live[is.Name]
 		if is.Delete || len(is.Leaves) == 0 {
 			if old != nil && is.Orphan {
 				// the statement leaves orphaned paths open: every path of an orphan-deleted intent is
 				// unconstrained unless a live intent still defines it (Expected checks live definers first)
-				for p := range old.Leaves {
+				for p, l := range old.Leaves {
 					m.Orphaned[p] = true
+					if r := m.Ruler(p); r != nil && r.Name == is.Name {
+						left[p] = l
+					}
 				}
 			}
 			delete(m.Live, is.Name)
@@ -114,6 +131,7 @@ func (m *Model) Accept(tx *TxSpec) {
 		for k, l := range cl {
 			m.Ever[k] = l.Path
 			delete(m.Orphaned, k)
+			delete(m.OrphanVals, k)
 			for _, ep := range l.Path.ListEntryPrefixes() {
 				m.Touched[ep.String()] = ep
 			}
